@@ -9,6 +9,14 @@ CHECKS = {
          "Generated-input search with an independent exact-rational polynomial oracle, coefficient by coefficient: bit-exact for dyadic operands, rigorous rounding + documented epsilon-drop allowance otherwise; every table row is required to be exercised.",
          "Trusts num-bigint/num-rational and the raw-field reader; Function operands have their oneof set; quadratic operands have no duplicated position (per the property's quantifier).",
          "DESIGN.md §5 C02"),
+ "C03": ("proptest-driven generation of functions/constraints/instances x state splits (one- and two-step, both orders) vs exact partial evaluation and the reference evaluator",
+         "Generated-input search: polynomial of the partially evaluated message compared coefficient-wise with the exact partial evaluation (bit-exact dyadic / rigorous bound), returned id sets bracketed, substituted values recorded, remainder evaluated and compared with the reference evaluator at the combined assignment.",
+         "Trusts harness/src/exact.rs and model.rs; states in-bound, no values for dependent variables; documented sub-epsilon drops are allowed for in the bound.",
+         "DESIGN.md §5 C03"),
+ "C04": ("proptest-driven generation of replacement maps / successive substitutions / log_encode->substitute and of dependency graphs, the latter evaluated under every iteration order of the dependency HashMap, vs exact simultaneous composition and topological evaluation",
+         "Generated-input search plus exhaustive enumeration of the n! (n<=5) iteration orders of the dependency map per graph (map rebuilt with fresh hashers until all permutations were observed); cyclic, self-referential and dangling graphs must be rejected under every order.",
+         "Trusts exact.rs/model.rs; the order space is exhausted from outside, so the verdict is independent of which order came when; instance-level replacements mention only remaining variables.",
+         "DESIGN.md §5 C04"),
  "C05": ("proptest-driven generation of valid instances x state classes (placed tolerances, bound violations, missing variables) vs an independent reference evaluator over exact rationals",
          "Generated-input search; the oracle implements the statement literally (objective, every active+removed constraint once with metadata, both feasibility flags, completed state, rejections); flags are only asserted outside the rounding margin around 1e-6.",
          "Trusts the reference evaluator in harness/src/model.rs and num-rational; states do not assign dependent variables.",
